@@ -40,18 +40,11 @@ def _usable_ref(v, ref, top=False):
         kids = children(ref)
         if top and (not kids or kids[0][0] != 'MSH'):
             return False
-        seen = {}
+        seen = set()
         for name, r, (mn, mx), kind in kids:
-            if name in seen:
-                # a second sibling of the same name.  The validator judges every row against ALL children of that name, the table
-                # means one run of children per row: an instance can satisfy both readings only if the minimum numbers together
-                # fit under every maximum ((1,1) + (1,1) does not - known finding V1; (0,-1) + (1,-1) does)
-                tot_mn, least_mx = seen[name][0] + mn, min(x for x in (seen[name][1], mx, 10 ** 9) if x != -1)
-                if mn >= 1 and tot_mn > least_mx:
-                    return False
-                seen[name] = (tot_mn, least_mx if least_mx < 10 ** 9 else -1)
-            else:
-                seen[name] = (mn, mx)
+            if name in seen and mn >= 1:
+                return False      # a *required* second sibling of the same name: the generator emits one row per name only
+            seen.add(name)
             if kind == 'SEG':
                 bad = name in T.PSEUDO_SEGMENTS or name not in T.lib(v).SEGMENTS or T.segment_defect(v, name)
                 if bad and mn >= 1:
